@@ -2729,6 +2729,8 @@ def check_C01(run):
                        'non-trivial = exit 0 with at least one change made; distinct by case')
     try:
         doer_model_stream(run)
+        from .props2 import sync_model_stream
+        sync_model_stream(run, 40 if not thorough else 600)
         general_l2(run)
         # ---- L2
         scs = corpus_l2('C01')
@@ -2813,6 +2815,7 @@ def check_C01(run):
     if fails and not any(not v[1] for v in run.violations):
         run.violation(dict(kind='oracle-failed-on-implementation', oracle='exit 0 without skips => the effective destination mirrors the source; excluded entries untouched; forbidden combinations change nothing',
                            failing_cases=len(fails), **fails[0]))
-    run.cov['trusted_base'] = C.GLOBAL_TRUST + ['PARTIAL: the effect of the doer\'s operations on a real file system is validated (L3/L4 with an independent snapshot comparison), not proved; proved: slash table, closed-form plan and its pointwise mirror property, exact delete/create traces of an error-free run',
+    run.cov['trusted_base'] = C.GLOBAL_TRUST + ['the mirror theorem C01_mirror_fs is about the file-system model (FS.lean) and the plan executor syncDest: tied to the code by the L3 doer-model stream (every call, with its error cases) and by the L4 sync-model stream (whole syncs: final tree of the CLI = final file system of syncDest, node for node); POSIX semantics beyond what these streams exercise is an assumption',
+                                                'the composition boss model (string paths, chunked files, arrival orders) -> syncDest (component paths, one-part files, listing orders) is by bridge theorems (C01_plan_bridge, C01_exec_bridge, C01_exec_bridge_file, C13_closed_form, C11_dest_bytes), not one end-to-end theorem; filters and hidden entries are outside C01_mirror_fs (a hidden entry beneath a folder that must go makes the run fail: C07)',
                                                 'remote placements run against a fake ssh/scp on this host (real --doer process, real TCP and AES-GCM); Windows doers are not runnable here',
                                                 'the independent filter evaluation uses Python re.fullmatch on patterns whose syntax coincides with the regex crate']
